@@ -467,7 +467,12 @@ func (eq *eq) Execute(searcher index.GetSearcher, seriesID common.SeriesID, tr *
 }
 
 func (eq *eq) ShouldSkip(tagFamilyFilters index.FilterOp) (bool, error) {
-	return !tagFamilyFilters.Eq(eq.Key.Tags[0], eq.Expr.String()), nil
+	// The block filter holds values in their stored form (an int is 8 bytes, not its decimal text).
+	bb := eq.Expr.Bytes()
+	if len(bb) != 1 {
+		return false, nil
+	}
+	return !tagFamilyFilters.Eq(eq.Key.Tags[0], convert.BytesToString(bb[0])), nil
 }
 
 func (eq *eq) MarshalJSON() ([]byte, error) {
